@@ -75,6 +75,9 @@ def cases(tier, seed):
     for pair in itertools.permutations(TWINS, 2):
         for mode in ('seq', 'resumed', 'j2'):
             yield ['twins', list(pair), mode]
+    # more than nine layers in subprocesses (header order == sequential order)
+    yield ['bigworld', 12, None]
+    yield ['bigworld', 23, None]
     # the header sequence must not depend on which child finishes first: real
     # processes, completion orders forced with barrier files (shared with C06)
     for perm in (['C', 'B', 'A'], ['B', 'C', 'A'], ['C', 'A', 'B']):
@@ -378,6 +381,20 @@ def run_case(case):
         evals, nt, vs = run_e2e(case[1], case[2])
     elif kind == 'twins':
         evals, nt, vs = run_twins(case[1], case[2])
+    elif kind == 'bigworld':
+        from vt import ow
+        spec = ow.big_spec(nlayers=case[1], ntests=2, scripts=['pass'])
+        base = runrt.run_world(spec, [], probe=False)
+        hb = runrt.HDR_RE.findall(base.text)
+        vs = []
+        evals = 1
+        for argv in (['-j2'], ['-j3', '-vv'], ['-j30']):
+            r = runrt.run_world(spec, argv, probe=False)
+            evals += 1
+            hs = [h for h in runrt.HDR_RE.findall(r.text) if h != '.EmptyLayer']
+            if hs != hb:
+                vs.append(('header_sequence', (case[1], argv), (hs, hb)))
+        nt = evals
     elif kind == 'realorder':
         from vt.props import c06
         ev, vv = c06.run_realorder(case[1], 3, case[2])
